@@ -7,9 +7,11 @@ package fsutil
 // check, not as a violation. Bounded; proves nothing about fsutil.
 
 import (
+	"bytes"
 	"encoding/binary"
 	"encoding/json"
 	"fmt"
+	"io"
 	"os"
 	"path/filepath"
 	"sort"
@@ -61,6 +63,70 @@ func TestGovcAudit(t *testing.T) {
 				fail("SplitN(%q,%d) has %d parts", s, k, len(r))
 			}
 		}
+	}
+	// round 3: SplitN(s, "/", 2) is (first component, rest), two parts iff there is a separator;
+	// Split(s, "/") has one part more than there are separators; TrimSuffix/HasSuffix as assumed;
+	// filepath.Match without pattern characters is string equality and never matches across "/"
+	for _, s := range strs {
+		n++
+		r := strings.SplitN(s, "/", 2)
+		i := strings.IndexByte(s, '/')
+		if (len(r) == 2) != (i >= 0) {
+			fail("SplitN(%q) parts %d", s, len(r))
+		}
+		if i >= 0 && (r[0] != s[:i] || r[1] != s[i+1:]) {
+			fail("SplitN(%q) = %q", s, r)
+		}
+		if i < 0 && r[0] != s {
+			fail("SplitN(%q) = %q", s, r)
+		}
+		if len(strings.Split(s, "/")) != strings.Count(s, "/")+1 {
+			fail("Split(%q) count", s)
+		}
+		for _, suf := range []string{"/**", "/*", "/"} {
+			tr := strings.TrimSuffix(s, suf)
+			if strings.HasSuffix(s, suf) {
+				if tr+suf != s {
+					fail("TrimSuffix(%q,%q)", s, suf)
+				}
+			} else if tr != s {
+				fail("TrimSuffix(%q,%q) changed a string without the suffix", s, suf)
+			}
+		}
+		if ok, err := filepath.Match("a", s); err != nil || ok != (s == "a") {
+			fail("Match(a,%q)", s)
+		}
+	}
+	// io.CopyN into an empty bytes.Buffer: exactly n bytes or an error; Bytes() then has n bytes
+	for _, have := range []int{0, 1, 5, 700, 70000} {
+		for _, want := range []int{1, 5, 700, 70000} {
+			n++
+			var b bytes.Buffer
+			w, err := io.CopyN(&b, bytes.NewReader(make([]byte, have)), int64(want))
+			if err == nil && (int(w) != want || len(b.Bytes()) != want) {
+				fail("CopyN(%d of %d): wrote %d, buffered %d", want, have, w, len(b.Bytes()))
+			}
+			if (err == nil) != (have >= want) {
+				fail("CopyN(%d of %d): err %v", want, have, err)
+			}
+		}
+	}
+	// filepath.Walk calls its function first for the root it was given, literally
+	{
+		n++
+		d, _ := os.MkdirTemp("", "govc-audit-[x]")
+		os.WriteFile(filepath.Join(d, "f"), nil, 0644)
+		first := ""
+		filepath.Walk(d, func(p string, _ os.FileInfo, _ error) error {
+			if first == "" {
+				first = p
+			}
+			return nil
+		})
+		if first != d {
+			fail("Walk(%q) started at %q", d, first)
+		}
+		os.RemoveAll(d)
 	}
 	// assumed facts about clean relative paths (axioms clean_join_dir_base, clean_inside_dir, clean_nonempty)
 	for _, s := range auditStrings(5) {
